@@ -82,6 +82,10 @@ def build_one(exe, rng, idx):
     rng.shuffle(order)
     acc = list(order)
     rng.shuffle(acc)
+    if rng.random() < 0.3:
+        # a realm may name a server more than once: the list is what is written, the server keeps its FIRST place
+        order = order + [rng.choice(order[:-1])]
+        acc = acc + [acc[0]]
     cfg.realms = [dict(name=b"*", srv=order, acc=acc if rng.random() < 0.5 else None, msg=None, accresp=False)]
     cfg.opts["verifyeap"] = 0
     cfg.opts["loopprev"] = 0
